@@ -856,6 +856,22 @@ class Interp:
                 if ix[1] not in recv[1].items:
                     raise PanicPath('no entry for the key')
                 return ('ref', recv[1].items[ix[1]])
+        if name.startswith('core::num::') and A and all(self.deref_all(a)[0] == 'int' and self.deref_all(a)[1] is not None for a in A[:2]) and len(A) <= 2:
+            x_ = self.deref_all(A[0])[1]
+            y_ = self.deref_all(A[1])[1] if len(A) == 2 else None
+            body_, t_ = getattr(self, 'cur', (None, None))
+            uns = body_ is not None and not t_['dest']['p'] and ('usize' in body_.local_ty(t_['dest']['l']) or body_.local_ty(t_['dest']['l']).startswith(('u', 'core::option::Option<u')))
+            if seg in ('checked_sub', 'checked_add', 'checked_mul', 'checked_div') and y_ is not None:
+                if seg == 'checked_div' and y_ == 0:
+                    return mk_option(None)
+                r_ = {'checked_sub': x_ - y_, 'checked_add': x_ + y_, 'checked_mul': x_ * y_, 'checked_div': x_ // y_ if y_ else 0}[seg]
+                return mk_option(None) if (r_ < 0 and uns) else mk_option(('int', r_))
+            if seg in ('saturating_sub', 'saturating_add', 'wrapping_add', 'wrapping_sub', 'min', 'max', 'abs_diff', 'pow', 'div_ceil') and y_ is not None:
+                r_ = {'saturating_sub': max(0, x_ - y_) if uns else x_ - y_, 'saturating_add': x_ + y_, 'wrapping_add': x_ + y_, 'wrapping_sub': x_ - y_, 'min': min(x_, y_), 'max': max(x_, y_),
+                      'abs_diff': abs(x_ - y_), 'pow': x_ ** y_ if 0 <= y_ < 64 else 0, 'div_ceil': -(-x_ // y_) if y_ else 0}[seg]
+                if seg == 'wrapping_sub' and r_ < 0:
+                    raise Unmodelled('wrapping subtraction below zero')
+                return ('int', r_)
         if name.startswith('alloc::boxed::Box::') and seg in ('new', 'pin', 'from', 'into_inner', 'into_pin') and A:
             return A[0]          # boxes are transparent
         if name.startswith('alloc::boxed::Box::') and seg in ('new_uninit', 'new_zeroed') and not A:
@@ -961,7 +977,7 @@ class Interp:
     def compare_values(self, seg, a, b):
         if a[0] in ('ts', 'dur') and b[0] == a[0]:
             return mk_bool(self.ts_rel(seg, a, b))
-        if a[0] == 'key' and b[0] == 'key' and seg in ('eq', 'ne'):
+        if a[0] in ('key', 'addr', 'node') and b[0] == a[0] and seg in ('eq', 'ne'):
             return mk_bool((a[1] == b[1]) == (seg == 'eq'))
         if a[0] == 'bool' and b[0] == 'bool' and seg in ('eq', 'ne'):
             return mk_bool((a[1] == b[1]) == (seg == 'eq'))
@@ -1282,7 +1298,8 @@ class Interp:
         if d[0] == 'arr':
             return IterObj([('ref', c) for c in d[1]] if is_ref else [c.v for c in d[1]])
         if d[0] == 'set':
-            return IterObj([('ref', Cell(unkey(k))) for k in sorted(d[1])] if is_ref else [unkey(k) for k in sorted(d[1])])
+            by_ref = is_ref or id(d[1]) in self.__dict__.get('ref_sets', ())
+            return IterObj([('ref', Cell(unkey(k))) for k in sorted(d[1])] if by_ref else [unkey(k) for k in sorted(d[1])])
         if d[0] == 'adt' and d[1] in ('core::ops::range::Range', 'core::ops::range::RangeInclusive') and len(d[3]) >= 2:
             lo, hi = self.deref_all(d[3][0].v), self.deref_all(d[3][1].v)
             if lo[0] != 'int' or hi[0] != 'int' or lo[1] is None or hi[1] is None:
@@ -1331,6 +1348,8 @@ class Interp:
             return mk_option(x) if x is not None else mk_option(None)
         if name.startswith('core::iter::traits::iterator::Iterator::'):
             it = self.deref_all(A[0])
+            if it[0] == 'adt' and it[1] in ('core::ops::range::Range', 'core::ops::range::RangeInclusive'):
+                it = ('iter', self.as_iter(it))
             if it[0] != 'iter':
                 raise Unmodelled('%s on %s' % (name, it[0]))
             io = it[1]
@@ -1648,7 +1667,10 @@ class Interp:
         from facts import ty_head
         h = ty_head(ty)
         if h in ('std::collections::hash::set::HashSet', 'alloc::collections::btree::set::BTreeSet'):
-            return ('set', {self.key_of(x) for x in xs})
+            st_ = {self.key_of(x) for x in xs}
+            if '<&' in ty.replace(' ', ''):
+                self.__dict__.setdefault('ref_sets', set()).add(id(st_))       # a set of references: iterating it yields references
+            return ('set', st_)
         if h.endswith('::FuturesUnordered') or h.endswith('::FuturesOrdered'):
             return ('futs', list(xs))
         if h in ('std::collections::hash::map::HashMap', 'alloc::collections::btree::map::BTreeMap'):
